@@ -110,7 +110,9 @@ func (c *ShapeCase) source(withStmt bool) string {
 	if withStmt {
 		fmt.Fprintf(&sb, "\t%s\n", c.stmtText())
 	}
-	fmt.Fprintf(&sb, "qafter:\n\t%s\n\tDD qafter\n", markerText(3))
+	// the trailing forward branch makes the statement under test be followed by a first reference
+	// to a not yet defined label (pass 1 keeps state about such references)
+	fmt.Fprintf(&sb, "qafter:\n\t%s\n\tDD qafter\n\tJE qfwd\n\tNOP\nqfwd:\n\tHLT\n", markerText(3))
 	return sb.String()
 }
 
